@@ -1069,7 +1069,7 @@ fn main() {
     }
 
     // random rounds on top
-    let rounds = ctx.scale(0, 5000, 12000) as u64;
+    let rounds = ctx.scale(0, 25000, 50000) as u64;
     // ASan runs about four times slower: a quarter of the random rounds
     let rounds = if ctx.build == "ASAN" { rounds / 4 } else { rounds };
     for r in 0..rounds {
